@@ -314,6 +314,12 @@ func vfC02Scenarios(thorough bool) []*vfGWScenario {
 				out = append(out, &vfGWScenario{Name: fmt.Sprintf("%s-%s-w%d", strategy, vmode, workers),
 					Cfg:      vfGWCfg{Router: "flood", Peers: peers, Topics: []string{"t"}, SeenTTL: 2, Strategy: strategy, IDFn: "content", Validators: vals, Workers: workers, Prefix: prefix},
 					Alphabet: alphabet, Msgs: msgs, Depth: d, MaxSubs: 2})
+				if workers == 1 && (vmode == "none" || vmode == "async") {
+					// the same with the ID function configured for the topic instead of node-wide
+					out = append(out, &vfGWScenario{Name: fmt.Sprintf("%s-%s-w%d-topicid", strategy, vmode, workers),
+						Cfg:      vfGWCfg{Router: "flood", Peers: peers, Topics: []string{"t"}, SeenTTL: 2, Strategy: strategy, IDFn: "topic-content", Validators: vals, Workers: workers, Prefix: prefix},
+						Alphabet: alphabet, Msgs: msgs, Depth: d, MaxSubs: 2})
+				}
 			}
 		}
 	}
